@@ -2,7 +2,7 @@
 (*  Lle_Exec.v — the closed Qc instances of the C08 model / spec functions *)
 (*  that are extracted and run against the C++ (NO proofs here).           *)
 (*  c08_lle_run      lle_run with the certifying solver (ldlt().solve)     *)
-(*  c08_ltsa_run     ltsa_run  (E i = oracle answers of the local solver)  *)
+(*  c08_ltsa_run     ltsa_run_gs (E i = oracle answers of the local solver)*)
 (*  c08_hlle_run     hlle_run_sf (sqrt-free Gram-Schmidt, see Lle_Model)   *)
 (*  c08_dense        sparse_matrix_from_triplets as a dense table          *)
 (*  c08_local_gram   the matrix the local eigensolver sees                 *)
@@ -13,7 +13,8 @@ From TK Require Import Mat_Sums Mat_Core Mat_Qc Lle_Model Lle_Spec.
 Import ListNotations.
 
 Definition c08_lle_run := @lle_run Qc QcOps (solve_checked qeqb).
-Definition c08_ltsa_run := @ltsa_run Qc QcOps.
+(* the routine after repair F51 (Gram-Schmidt over the columns of G); @ltsa_run is the code before it *)
+Definition c08_ltsa_run := @ltsa_run_gs Qc QcOps (fun x => qeqb x 0%F).
 Definition c08_hlle_run := @hlle_run_sf Qc QcOps (fun x => qeqb x 0%F).
 Definition c08_dense (n : nat) (T : list (@triplet Qc)) : list (list Qc) :=
   mtab n n (from_triplets_fast T).
